@@ -1,7 +1,232 @@
-"""C17 — not implemented yet (fail closed)."""
-from ..model import AnalysisError
+"""C17 No operation's effect depends on earlier operations — hidden carried state, state outside the object."""
+
+from __future__ import annotations
+
+import ast
+from typing import Dict, List, Optional, Set, Tuple
+
+from ..cfg import Node
+from ..core import Ctx, Report, snippet, where
+from ..model import Class, Func, own_nodes, src
+from .c05 import memo_rules
+from .keys import DATA_CLASSES, consumed, exported, reinit_sites
+
 PROPERTY = "C17"
 LEVEL = "other"
-EXPLANATION = "not implemented"
-def run(ctx, rep, tier):
-    raise AnalysisError("rules for C17 are not implemented yet")
+EXPLANATION = (
+    "Decides the static core of 'no operation's effect depends on which operations were applied before': a class that "
+    "re-initialises itself from data() carries no constructor option that data() does not export (it would be silently "
+    "reset by the first re-initialising setter), the package keeps no state outside the objects (no module-level value "
+    "mutated by a function, no memo that survives a reassignment), and re-initialisation assigns every attribute the "
+    "class can hold (nothing keeps a pre-operation value by accident). Does not decide agreement of each operation with "
+    "a reference model or parse-back after each step: those need executions."
+)
+ASSUMPTIONS = ["objects are not shared between threads"]
+
+# (class, key): reason why a consumed-but-not-exported key is not carried state
+CARRY_EXCEPTIONS = {
+    ("Remark", "type"): "no effect on a remark",
+    ("Remark", "max_ncwb"): "no effect on a remark",
+    ("Remark", "protocol_nr"): "no effect on a remark",
+    ("Remark", "port_nr"): "no effect on a remark",
+    ("Acl", "sequence"): "Acl never re-initialises itself through data()",
+}
+
+
+def reinit_classes(ctx: Ctx) -> Dict[str, List[str]]:
+    """class name -> setters through which instances of it re-initialise themselves."""
+    out: Dict[str, List[str]] = {}
+    for f, call, kind, d in reinit_sites(ctx):
+        owner = f.cls
+        for cls in ctx.prog.subclasses(owner):
+            if cls.name not in DATA_CLASSES:
+                continue
+            # the site applies to cls only if cls does not override the accessor
+            g = cls.lookup_setter(f.name) if f.kind == "setter" else cls.lookup_method(f.name)
+            if g is f:
+                out.setdefault(cls.name, []).append(f.qualname)
+    return out
+
+
+def r17_1(ctx: Ctx, rep: Report) -> None:
+    rep.rule("R17.1")
+    rc = reinit_classes(ctx)
+    rep.instance(len(rc))
+    rep.floor(5, "classes that re-initialise themselves")
+    for cn, setters in sorted(rc.items()):
+        cls = ctx.cls(cn)
+        ex, co = exported(ctx, cls), consumed(ctx, cls)
+        df = cls.lookup_method("data")
+        for k in sorted(co):
+            if k in ex or k == "uuid":
+                continue
+            rep.instance()
+            if (cn, k) in CARRY_EXCEPTIONS:
+                rep.ok(f"{cn}: option {k!r}", CARRY_EXCEPTIONS[(cn, k)], nontrivial=False)
+                continue
+            rep.violation(
+                df.qualname,
+                f"consumed key {k!r} not exported",
+                f"{cn} re-initialises itself from data() in {sorted(set(setters))}, but data() does not export the constructor option {k!r} "
+                f"(read by {co[k]}): the first such setter silently resets it to the default, so later operations depend on earlier ones",
+                where(df),
+                inp=f"g = {cn}(..., {k}=<non-default>); g.{'type = \"extended\"' if cn != 'AddrGroup' else 'platform = \"nxos\"'}  ->  {k} back to its default",
+            )
+        rep.ok(f"{cn}: exported ⊇ consumed", f"checked {len(co)} constructor keys against {len(ex)} exported keys", where=where(df))
+
+
+def r17_2(ctx: Ctx, rep: Report, fixture: bool = False) -> int:
+    rep.rule("R17.2")
+    hits = 0
+    for mod in ctx.prog.modules.values():
+        mutable_globals: Dict[str, ast.AST] = {}
+        for name, exprs in mod.consts.items():
+            v = exprs[-1]
+            if isinstance(v, (ast.List, ast.Dict, ast.Set, ast.ListComp, ast.DictComp, ast.SetComp)) or (isinstance(v, ast.Call) and isinstance(v.func, ast.Name) and v.func.id in ("list", "dict", "set", "defaultdict")):
+                mutable_globals[name] = v
+        for f in ctx.prog.funcs:
+            if f.module is not mod:
+                continue
+            local_names = {x.id for x in ast.walk(f.node) if isinstance(x, ast.Name) and isinstance(x.ctx, ast.Store)} | set(f.params)
+            for n in own_nodes(f.node):
+                if isinstance(n, (ast.Global, ast.Nonlocal)):
+                    hits += 1
+                    rep.violation(f.qualname, f"{'global' if isinstance(n, ast.Global) else 'nonlocal'} {', '.join(n.names)}", "module-level state is rebound by a function: results depend on earlier calls", where(f, n))
+                tgt = None
+                if isinstance(n, ast.Call) and isinstance(n.func, ast.Attribute) and n.func.attr in ("append", "extend", "insert", "pop", "remove", "clear", "update", "setdefault", "add", "discard", "sort", "reverse", "popitem") and isinstance(n.func.value, ast.Name):
+                    tgt = n.func.value.id
+                elif isinstance(n, (ast.Assign, ast.AugAssign, ast.Delete)):
+                    for t in (n.targets if isinstance(n, (ast.Assign, ast.Delete)) else [n.target]):
+                        if isinstance(t, ast.Subscript) and isinstance(t.value, ast.Name):
+                            tgt = t.value.id
+                if tgt and tgt in mutable_globals and tgt not in local_names:
+                    hits += 1
+                    rep.violation(f.qualname, snippet(n), f"the module-level {tgt} is mutated by a function: state survives outside the objects and later operations depend on earlier ones", where(f, n))
+    if not fixture:
+        rep.instance()
+        if hits == 0:
+            rep.ok("package", f"no function rebinds or mutates module-level state ({sum(len(m.consts) for m in ctx.prog.modules.values())} module-level names examined)")
+    return hits
+
+
+def _must_assign(ctx: Ctx, f: Func, self_cls: Class, memo: Dict[Tuple[int, str], Set[str]], depth: int = 0) -> Set[str]:
+    """Attributes of self that are assigned on every normally-returning path of f (interprocedural, must)."""
+    key = (id(f), self_cls.name)
+    if key in memo:
+        return memo[key]
+    memo[key] = set()
+    if depth > 8:
+        return set()
+    cfg = ctx.cfg(f)
+    self_name = f.params[0] if f.params else "self"
+
+    def gen(n: Node) -> Set[str]:
+        out: Set[str] = set()
+        if n.ast is None or n.kind not in ("stmt",):
+            return out
+        if isinstance(n.ast, (ast.Assign, ast.AnnAssign, ast.AugAssign)):
+            tgts = n.ast.targets if isinstance(n.ast, ast.Assign) else [n.ast.target]
+            for t in tgts:
+                if isinstance(t, ast.Attribute) and src(t.value) == self_name and (not isinstance(n.ast, ast.AnnAssign) or n.ast.value is not None):
+                    st = self_cls.lookup_setter(t.attr)
+                    if st is not None:
+                        out |= _must_assign(ctx, st, self_cls, memo, depth + 1)
+                    else:
+                        out.add(t.attr)
+        for x in ast.walk(n.ast):
+            if isinstance(x, ast.Call) and isinstance(x.func, ast.Attribute):
+                callee = None
+                if src(x.func.value) == self_name:
+                    callee = self_cls.lookup_method(x.func.attr)
+                elif src(x.func.value) == "super()" and f.cls in self_cls.mro:
+                    for c in self_cls.mro[self_cls.mro.index(f.cls) + 1 :]:
+                        if x.func.attr in c.methods:
+                            callee = c.methods[x.func.attr]
+                            break
+                elif isinstance(x.func.value, ast.Name) and x.func.value.id in ctx.prog.classes and x.args and src(x.args[0]) == self_name:
+                    callee = ctx.prog.classes[x.func.value.id].lookup_method(x.func.attr)
+                if callee is not None and callee is not f:
+                    out |= _must_assign(ctx, callee, self_cls, memo, depth + 1)
+        return out
+
+    # forward must-analysis: IN[n] = intersection of OUT[pred]; OUT = IN | gen
+    order = cfg.live
+    OUT: Dict[Node, Optional[Set[str]]] = {n: None for n in order}
+    changed = True
+    gens = {n: gen(n) for n in order}
+    it = 0
+    while changed and it < 50:
+        changed = False
+        it += 1
+        for n in order:
+            preds = [p for lab, p in n.pred if lab != "exc"]
+            ins: Optional[Set[str]] = None
+            for p in preds:
+                if OUT.get(p) is None:
+                    continue
+                ins = set(OUT[p]) if ins is None else ins & OUT[p]
+            if n is cfg.entry:
+                ins = set()
+            if ins is None:
+                continue
+            new = ins | gens[n]
+            if OUT[n] is None or new != OUT[n]:
+                OUT[n] = new
+                changed = True
+    res = OUT.get(cfg.exit) or set()
+    memo[key] = res
+    return res
+
+
+def r17_3(ctx: Ctx, rep: Report) -> None:
+    rep.rule("R17.3")
+    memo: Dict[Tuple[int, str], Set[str]] = {}
+    rc = reinit_classes(ctx)
+    for cn in sorted(rc):
+        cls = ctx.cls(cn)
+        init = cls.lookup_method("__init__")
+        if init is None:
+            continue
+        rep.instance()
+        all_attrs: Dict[str, str] = {}
+        for c in cls.mro:
+            for g in c.all_funcs():
+                for n in own_nodes(g.node):
+                    if isinstance(n, (ast.Assign, ast.AnnAssign, ast.AugAssign)):
+                        for t in n.targets if isinstance(n, ast.Assign) else [n.target]:
+                            if isinstance(t, ast.Attribute) and src(t.value) == "self" and cls.lookup_setter(t.attr) is None:
+                                all_attrs.setdefault(t.attr, g.qualname)
+        must = _must_assign(ctx, init, cls, memo)
+        missing = sorted(a for a in all_attrs if a not in must)
+        if missing:
+            for a in missing:
+                rep.violation(
+                    init.qualname,
+                    f"{cn}: attribute {a} not assigned on every path of the __init__ chain",
+                    f"{all_attrs[a]} stores {a}, but re-initialisation ({sorted(set(rc[cn]))}) does not assign it on every path: it keeps its pre-operation value",
+                    where(init),
+                )
+        else:
+            rep.ok(f"{cn}.__init__ chain", f"definitely assigns all {len(all_attrs)} attributes the class stores", where=where(init))
+    # __dict__.update re-initialisations replace every attribute: the donor is a fresh instance of the same class
+    for f, call, kind, d in reinit_sites(ctx):
+        if "__dict__" not in kind:
+            continue
+        rep.instance()
+        donor_cls = call.func.id if isinstance(call.func, ast.Name) else ""
+        if f.cls is not None and donor_cls == f.cls.name:
+            rep.ok(f"{f.qualname}: {kind}", "donor is a fresh instance of the same class: every attribute is replaced", where=where(f, call))
+        else:
+            rep.violation(f.qualname, kind, f"the donor object is a {donor_cls}, not a {f.cls.name if f.cls else '?'}: attributes of the receiver survive the re-initialisation", where(f, call))
+
+
+def run(ctx: Ctx, rep: Report, tier: str) -> None:
+    r17_1(ctx, rep)
+    r17_2(ctx, rep)
+    from ..fixtures import run_fixture
+
+    run_fixture("modstate", lambda c, r: r17_2(c, r, fixture=True), expect_violation="module-level")
+    n = memo_rules(ctx, rep, rid="R17.2m")
+    if not n:
+        rep.note("R17.2m no memoised method in the package")
+    r17_3(ctx, rep)
